@@ -113,6 +113,16 @@ CLAIMED = {
        '(several transactions, command-looking bodies, lone dots, bodies around the SIZE limit, pipelining past DATA) under 8 segmentations to the '
        'real Server: all traces must agree with each other and with the model.',
   ref='6/C09', technique='Lean 4 proof (stream-equivalence relation preserved by every reader; induction on fuel) + metamorphic/differential correspondence vs real smtp.Server'),
+ 'C08': dict(
+  text='PARTIAL (TLS is an opaque pipe that starts empty; pysasl credential decoding is an oracle). Lean theorems over Model/Server.lean: after an '
+       'accepted STARTTLS the session continues on the TLS stream with an EMPTY receive buffer in the just-greeted state (no EHLO identity, '
+       'sender, recipient or envelope; STARTTLS not offered; encrypted) and the continuation does not mention the clear-text leftovers at all; '
+       'the SASL exchange is entered only when AUTH is offered, EHLO accepted, not yet authenticated, no transaction open; an AUTH callback '
+       'needs an encrypted session and PLAIN/LOGIN; malformed AUTH lines and bad/cancelled responses never end the session; the authed flag '
+       'rises only with a 235. Tied to the code by server sessions (5 prefixes x 9 injected byte strings x 10 TLS scripts, AUTH shapes x TLS modes x '
+       'positions x verdicts) and client STARTTLS runs over a stand-in TLS layer, plus real TLS runs on a socketpair.',
+  ref='6/C08', technique='Lean 4 proof (case analysis of STARTTLS/AUTH steps) + differential correspondence vs real smtp.Server/Client (stand-in and real TLS)',
+  note='Partial: TLS channel and pysasl are outside the model.'),
 }
 def main():
     props = [json.loads(l) for l in open(os.path.join(V, 'properties.jsonl'))]
